@@ -61,9 +61,12 @@ Model/OrderHist.vos Model/OrderHist.vok Model/OrderHist.required_vos: Model/Orde
 Model/Reorder.vo Model/Reorder.glob Model/Reorder.v.beautified Model/Reorder.required_vo: Model/Reorder.v Gen/GenStruct.vo Model/OrderHist.vo
 Model/Reorder.vio: Model/Reorder.v Gen/GenStruct.vio Model/OrderHist.vio
 Model/Reorder.vos Model/Reorder.vok Model/Reorder.required_vos: Model/Reorder.v Gen/GenStruct.vos Model/OrderHist.vos
-Model/Signals.vo Model/Signals.glob Model/Signals.v.beautified Model/Signals.required_vo: Model/Signals.v Gen/GenObserve.vo Model/OrderHist.vo
-Model/Signals.vio: Model/Signals.v Gen/GenObserve.vio Model/OrderHist.vio
-Model/Signals.vos Model/Signals.vok Model/Signals.required_vos: Model/Signals.v Gen/GenObserve.vos Model/OrderHist.vos
+Model/Routes.vo Model/Routes.glob Model/Routes.v.beautified Model/Routes.required_vo: Model/Routes.v Gen/GenStruct.vo Gen/GenObserve.vo Model/OrderHist.vo
+Model/Routes.vio: Model/Routes.v Gen/GenStruct.vio Gen/GenObserve.vio Model/OrderHist.vio
+Model/Routes.vos Model/Routes.vok Model/Routes.required_vos: Model/Routes.v Gen/GenStruct.vos Gen/GenObserve.vos Model/OrderHist.vos
+Model/Signals.vo Model/Signals.glob Model/Signals.v.beautified Model/Signals.required_vo: Model/Signals.v Gen/GenStruct.vo Gen/GenObserve.vo Model/OrderHist.vo Model/Routes.vo
+Model/Signals.vio: Model/Signals.v Gen/GenStruct.vio Gen/GenObserve.vio Model/OrderHist.vio Model/Routes.vio
+Model/Signals.vos Model/Signals.vok Model/Signals.required_vos: Model/Signals.v Gen/GenStruct.vos Gen/GenObserve.vos Model/OrderHist.vos Model/Routes.vos
 Proofs/ApplyProofs.vo Proofs/ApplyProofs.glob Proofs/ApplyProofs.v.beautified Proofs/ApplyProofs.required_vo: Proofs/ApplyProofs.v Lib/NumOps.vo Gen/GenAsync.vo Gen/GenStruct.vo Model/OrderHist.vo Model/Apply.vo
 Proofs/ApplyProofs.vio: Proofs/ApplyProofs.v Lib/NumOps.vio Gen/GenAsync.vio Gen/GenStruct.vio Model/OrderHist.vio Model/Apply.vio
 Proofs/ApplyProofs.vos Proofs/ApplyProofs.vok Proofs/ApplyProofs.required_vos: Proofs/ApplyProofs.v Lib/NumOps.vos Gen/GenAsync.vos Gen/GenStruct.vos Model/OrderHist.vos Model/Apply.vos
@@ -127,9 +130,12 @@ Proofs/OrderHistProofs.vos Proofs/OrderHistProofs.vok Proofs/OrderHistProofs.req
 Proofs/ReorderProofs.vo Proofs/ReorderProofs.glob Proofs/ReorderProofs.v.beautified Proofs/ReorderProofs.required_vo: Proofs/ReorderProofs.v Gen/GenStruct.vo Model/OrderHist.vo Model/Reorder.vo
 Proofs/ReorderProofs.vio: Proofs/ReorderProofs.v Gen/GenStruct.vio Model/OrderHist.vio Model/Reorder.vio
 Proofs/ReorderProofs.vos Proofs/ReorderProofs.vok Proofs/ReorderProofs.required_vos: Proofs/ReorderProofs.v Gen/GenStruct.vos Model/OrderHist.vos Model/Reorder.vos
-Proofs/SignalProofs.vo Proofs/SignalProofs.glob Proofs/SignalProofs.v.beautified Proofs/SignalProofs.required_vo: Proofs/SignalProofs.v Gen/GenObserve.vo Model/OrderHist.vo Model/Signals.vo
-Proofs/SignalProofs.vio: Proofs/SignalProofs.v Gen/GenObserve.vio Model/OrderHist.vio Model/Signals.vio
-Proofs/SignalProofs.vos Proofs/SignalProofs.vok Proofs/SignalProofs.required_vos: Proofs/SignalProofs.v Gen/GenObserve.vos Model/OrderHist.vos Model/Signals.vos
+Proofs/RouteProofs.vo Proofs/RouteProofs.glob Proofs/RouteProofs.v.beautified Proofs/RouteProofs.required_vo: Proofs/RouteProofs.v Gen/GenStruct.vo Gen/GenObserve.vo Model/OrderHist.vo Model/Routes.vo
+Proofs/RouteProofs.vio: Proofs/RouteProofs.v Gen/GenStruct.vio Gen/GenObserve.vio Model/OrderHist.vio Model/Routes.vio
+Proofs/RouteProofs.vos Proofs/RouteProofs.vok Proofs/RouteProofs.required_vos: Proofs/RouteProofs.v Gen/GenStruct.vos Gen/GenObserve.vos Model/OrderHist.vos Model/Routes.vos
+Proofs/SignalProofs.vo Proofs/SignalProofs.glob Proofs/SignalProofs.v.beautified Proofs/SignalProofs.required_vo: Proofs/SignalProofs.v Gen/GenStruct.vo Gen/GenObserve.vo Model/OrderHist.vo Model/Routes.vo Proofs/RouteProofs.vo Model/Signals.vo
+Proofs/SignalProofs.vio: Proofs/SignalProofs.v Gen/GenStruct.vio Gen/GenObserve.vio Model/OrderHist.vio Model/Routes.vio Proofs/RouteProofs.vio Model/Signals.vio
+Proofs/SignalProofs.vos Proofs/SignalProofs.vok Proofs/SignalProofs.required_vos: Proofs/SignalProofs.v Gen/GenStruct.vos Gen/GenObserve.vos Model/OrderHist.vos Model/Routes.vos Proofs/RouteProofs.vos Model/Signals.vos
 Proofs/SortRecovers.vo Proofs/SortRecovers.glob Proofs/SortRecovers.v.beautified Proofs/SortRecovers.required_vo: Proofs/SortRecovers.v 
 Proofs/SortRecovers.vio: Proofs/SortRecovers.v 
 Proofs/SortRecovers.vos Proofs/SortRecovers.vok Proofs/SortRecovers.required_vos: Proofs/SortRecovers.v 
@@ -145,9 +151,9 @@ Props/C03.vos Props/C03.vok Props/C03.required_vos: Props/C03.v Lib/NumOps.vos G
 Props/C04.vo Props/C04.glob Props/C04.v.beautified Props/C04.required_vo: Props/C04.v Gen/GenAsync.vo Gen/GenStruct.vo Model/OrderHist.vo Model/Apply.vo Model/Fail.vo Proofs/FailProofs.vo Model/FailAux.vo Proofs/FailAuxProofs.vo
 Props/C04.vio: Props/C04.v Gen/GenAsync.vio Gen/GenStruct.vio Model/OrderHist.vio Model/Apply.vio Model/Fail.vio Proofs/FailProofs.vio Model/FailAux.vio Proofs/FailAuxProofs.vio
 Props/C04.vos Props/C04.vok Props/C04.required_vos: Props/C04.v Gen/GenAsync.vos Gen/GenStruct.vos Model/OrderHist.vos Model/Apply.vos Model/Fail.vos Proofs/FailProofs.vos Model/FailAux.vos Proofs/FailAuxProofs.vos
-Props/C05.vo Props/C05.glob Props/C05.v.beautified Props/C05.required_vo: Props/C05.v Gen/GenObserve.vo Model/Signals.vo Proofs/SignalProofs.vo
-Props/C05.vio: Props/C05.v Gen/GenObserve.vio Model/Signals.vio Proofs/SignalProofs.vio
-Props/C05.vos Props/C05.vok Props/C05.required_vos: Props/C05.v Gen/GenObserve.vos Model/Signals.vos Proofs/SignalProofs.vos
+Props/C05.vo Props/C05.glob Props/C05.v.beautified Props/C05.required_vo: Props/C05.v Gen/GenObserve.vo Model/Signals.vo Proofs/SignalProofs.vo Model/Routes.vo Proofs/RouteProofs.vo
+Props/C05.vio: Props/C05.v Gen/GenObserve.vio Model/Signals.vio Proofs/SignalProofs.vio Model/Routes.vio Proofs/RouteProofs.vio
+Props/C05.vos Props/C05.vok Props/C05.required_vos: Props/C05.v Gen/GenObserve.vos Model/Signals.vos Proofs/SignalProofs.vos Model/Routes.vos Proofs/RouteProofs.vos
 Props/C06.vo Props/C06.glob Props/C06.v.beautified Props/C06.required_vo: Props/C06.v Gen/GenStruct.vo Gen/GenParams.vo Model/OrderHist.vo Model/Hist.vo Proofs/HistProofs.vo
 Props/C06.vio: Props/C06.v Gen/GenStruct.vio Gen/GenParams.vio Model/OrderHist.vio Model/Hist.vio Proofs/HistProofs.vio
 Props/C06.vos Props/C06.vok Props/C06.required_vos: Props/C06.v Gen/GenStruct.vos Gen/GenParams.vos Model/OrderHist.vos Model/Hist.vos Proofs/HistProofs.vos
@@ -181,9 +187,9 @@ Props/C15.vos Props/C15.vok Props/C15.required_vos: Props/C15.v Lib/NumOps.vos G
 Props/C16.vo Props/C16.glob Props/C16.v.beautified Props/C16.required_vo: Props/C16.v Lib/NumOps.vo Gen/GenProto.vo Gen/GenStruct.vo Model/Core.vo Spec/ProtoSpec.vo Proofs/CoreOrder.vo Model/OrderHist.vo Proofs/OrderHistProofs.vo
 Props/C16.vio: Props/C16.v Lib/NumOps.vio Gen/GenProto.vio Gen/GenStruct.vio Model/Core.vio Spec/ProtoSpec.vio Proofs/CoreOrder.vio Model/OrderHist.vio Proofs/OrderHistProofs.vio
 Props/C16.vos Props/C16.vok Props/C16.required_vos: Props/C16.v Lib/NumOps.vos Gen/GenProto.vos Gen/GenStruct.vos Model/Core.vos Spec/ProtoSpec.vos Proofs/CoreOrder.vos Model/OrderHist.vos Proofs/OrderHistProofs.vos
-Props/C17.vo Props/C17.glob Props/C17.v.beautified Props/C17.required_vo: Props/C17.v Gen/GenObserve.vo Gen/GenAsync.vo Gen/GenStruct.vo Model/OrderHist.vo Model/Apply.vo Model/Fail.vo Proofs/FailProofs.vo Model/Signals.vo Proofs/SignalProofs.vo
-Props/C17.vio: Props/C17.v Gen/GenObserve.vio Gen/GenAsync.vio Gen/GenStruct.vio Model/OrderHist.vio Model/Apply.vio Model/Fail.vio Proofs/FailProofs.vio Model/Signals.vio Proofs/SignalProofs.vio
-Props/C17.vos Props/C17.vok Props/C17.required_vos: Props/C17.v Gen/GenObserve.vos Gen/GenAsync.vos Gen/GenStruct.vos Model/OrderHist.vos Model/Apply.vos Model/Fail.vos Proofs/FailProofs.vos Model/Signals.vos Proofs/SignalProofs.vos
+Props/C17.vo Props/C17.glob Props/C17.v.beautified Props/C17.required_vo: Props/C17.v Gen/GenObserve.vo Gen/GenAsync.vo Gen/GenStruct.vo Model/OrderHist.vo Model/Apply.vo Model/Fail.vo Proofs/FailProofs.vo Model/Signals.vo Proofs/SignalProofs.vo Model/Routes.vo Proofs/RouteProofs.vo
+Props/C17.vio: Props/C17.v Gen/GenObserve.vio Gen/GenAsync.vio Gen/GenStruct.vio Model/OrderHist.vio Model/Apply.vio Model/Fail.vio Proofs/FailProofs.vio Model/Signals.vio Proofs/SignalProofs.vio Model/Routes.vio Proofs/RouteProofs.vio
+Props/C17.vos Props/C17.vok Props/C17.required_vos: Props/C17.v Gen/GenObserve.vos Gen/GenAsync.vos Gen/GenStruct.vos Model/OrderHist.vos Model/Apply.vos Model/Fail.vos Proofs/FailProofs.vos Model/Signals.vos Proofs/SignalProofs.vos Model/Routes.vos Proofs/RouteProofs.vos
 Props/C18.vo Props/C18.glob Props/C18.v.beautified Props/C18.required_vo: Props/C18.v Gen/GenObserve.vo Lib/NumOps.vo Gen/GenProto.vo Model/Core.vo Spec/ProtoSpec.vo Proofs/CoreCons.vo Proofs/CoreResult.vo Model/Observe.vo Proofs/ObserveProofs.vo
 Props/C18.vio: Props/C18.v Gen/GenObserve.vio Lib/NumOps.vio Gen/GenProto.vio Model/Core.vio Spec/ProtoSpec.vio Proofs/CoreCons.vio Proofs/CoreResult.vio Model/Observe.vio Proofs/ObserveProofs.vio
 Props/C18.vos Props/C18.vok Props/C18.required_vos: Props/C18.v Gen/GenObserve.vos Lib/NumOps.vos Gen/GenProto.vos Model/Core.vos Spec/ProtoSpec.vos Proofs/CoreCons.vos Proofs/CoreResult.vos Model/Observe.vos Proofs/ObserveProofs.vos
